@@ -54,14 +54,14 @@ FinPairs(prog, target) ==
   CASE fin.kind \in {"update", "updates", "updates_map", "update_returning"} -> PayPairs(fin.pay) \o SoftTouch(prog)
     [] fin.kind = "create" -> RowPairs(fin.pay) \o SoftRow(prog)
     [] fin.kind = "create_slice" -> RowPairs(fin.pay) \o SoftRow(prog) \o RowPairs(fin.pay2) \o SoftRow(prog)
-    [] fin.kind = "create_map" -> PayPairs(fin.pay)
+    [] fin.kind \in {"create_map", "create_tmap"} -> PayPairs(fin.pay)
     [] fin.kind = "upsert" -> <<P("id", "i:1")>> \o RowPairs(fin.pay) \o SoftRow(prog) \o PayPairs(fin.pay2)
     [] fin.kind = "first" /\ target # "real" -> <<P("", "i:1")>>     \* default LIMIT builder binds the limit
     \* deleting from a soft-delete model is an UPDATE that binds the deletion time
     [] fin.kind \in {"delete", "delete_returning"} /\ prog.soft -> <<P("deleted_at", prog.now)>>
     [] OTHER -> <<>>
 Pairs(prog, target) ==
-  IF prog.fin.kind \in {"create", "create_slice", "create_map", "upsert"} THEN FinPairs(prog, target)
+  IF prog.fin.kind \in {"create", "create_slice", "create_map", "create_tmap", "upsert"} THEN FinPairs(prog, target)
   ELSE PartsPairs(prog.parts) \o FinPairs(prog, target)
 
 BagOf(seq) == [x \in {seq[i] : i \in DOMAIN seq} |-> Cardinality({i \in DOMAIN seq : seq[i] = x})]
